@@ -31,16 +31,16 @@ import typing
 from fractions import Fraction
 import ttconv.style_properties as styles
 
-_LENGTH_RE = re.compile(r"^((?:\+|\-)?\d*(?:\.\d+)?)(px|em|c|%|rh|rw)$")
+_LENGTH_RE = re.compile(r"^((?:\+|\-)?\d*(?:\.\d+)?)(px|em|c|%|rh|rw)$", re.ASCII)
 
-_CLOCK_TIME_FRACTION_RE = re.compile(r"^(\d{2,}):(\d\d):(\d\d(?:\.\d+)?)$")
-_CLOCK_TIME_FRAMES_RE = re.compile(r"^(\d{2,}):(\d\d):(\d\d):(\d{2,})$")
-_OFFSET_FRAME_RE = re.compile(r"^(\d+(?:\.\d+)?)f$")
-_OFFSET_TICK_RE = re.compile(r"^(\d+(?:\.\d+)?)t$")
-_OFFSET_MS_RE = re.compile(r"^(\d+(?:\.\d+)?)ms$")
-_OFFSET_S_RE = re.compile(r"^(\d+(?:\.\d+)?)s$")
-_OFFSET_H_RE = re.compile(r"^(\d+(?:\.\d+)?)h$")
-_OFFSET_M_RE = re.compile(r"^(\d+(?:\.\d+)?)m$")
+_CLOCK_TIME_FRACTION_RE = re.compile(r"^(\d{2,}):(\d\d):(\d\d(?:\.\d+)?)$", re.ASCII)
+_CLOCK_TIME_FRAMES_RE = re.compile(r"^(\d{2,}):(\d\d):(\d\d):(\d{2,})$", re.ASCII)
+_OFFSET_FRAME_RE = re.compile(r"^(\d+(?:\.\d+)?)f$", re.ASCII)
+_OFFSET_TICK_RE = re.compile(r"^(\d+(?:\.\d+)?)t$", re.ASCII)
+_OFFSET_MS_RE = re.compile(r"^(\d+(?:\.\d+)?)ms$", re.ASCII)
+_OFFSET_S_RE = re.compile(r"^(\d+(?:\.\d+)?)s$", re.ASCII)
+_OFFSET_H_RE = re.compile(r"^(\d+(?:\.\d+)?)h$", re.ASCII)
+_OFFSET_M_RE = re.compile(r"^(\d+(?:\.\d+)?)m$", re.ASCII)
 
 
 def format_number(value) -> str:
